@@ -1,6 +1,7 @@
 package rules
 
 import (
+	"go/token"
 	"go/types"
 	"sort"
 	"strings"
@@ -23,6 +24,8 @@ import (
 //		                  single map store; records already in a registry are never mutated in place
 //		R-order           resources/list is produced by walking the order slice, never by ranging the map
 //	  R-handler-unlocked  no registry lock is held while user code runs
+//	  R-lookup-checked    every dereference of a looked-up registry entry is guarded by that lookup's own result
+//	  R-cache-invalidated every registry mutation also invalidates any derived cache its owner keeps (discovered)
 //	  R-one-registry      every caller of an options constructor with a fallback registry supplies its own registry
 func init() { Registry["C12"] = checkC12 }
 
@@ -93,6 +96,8 @@ func checkC12(c *Ctx) {
 
 	c12OneRegistry(c, ri.owners)
 	c12NoLockAcrossHandler(c, ri)
+	c12LookupChecked(c, ri)
+	c12DerivedCache(c, ri, accs)
 
 	guards := GuardTable(c, accs)
 	guardOf := map[string]string{}
@@ -460,4 +465,210 @@ func c12NoLockAcrossHandler(c *Ctx, ri *registryInfo) {
 	}
 	c.R.Min("R-handler-unlocked", 4)
 	_ = n
+}
+
+// c12LookupChecked (R-lookup-checked): an entry looked up in a registry may have been unregistered a moment earlier,
+// also when an earlier lookup of the same request found it. Every dereference of a looked-up entry (pointer-valued
+// registry map) is therefore reachable only through the lookup's own ok result, or a nil test of the entry.
+func c12LookupChecked(c *Ctx, ri *registryInfo) {
+	n := 0
+	for _, fn := range c.P.LibFns {
+		if c.InitOnly()[fn] {
+			continue
+		}
+		cnt := map[string]int{}
+		ir.EachInstr(fn, func(_ *ssa.BasicBlock, _ int, in ssa.Instruction) {
+			lk, ok := in.(*ssa.Lookup)
+			if !ok {
+				return
+			}
+			ld, ok := lk.X.(*ssa.UnOp)
+			if !ok {
+				return
+			}
+			fa, ok := ld.X.(*ssa.FieldAddr)
+			if !ok {
+				return
+			}
+			key, _, typ, _ := ir.FullField(fa)
+			if !ri.maps[key] {
+				return
+			}
+			m, ok := typ.Underlying().(*types.Map)
+			if !ok {
+				return
+			}
+			if _, isPtr := m.Elem().Underlying().(*types.Pointer); !isPtr {
+				return
+			}
+			var val, okv ssa.Value = lk, nil
+			if lk.CommaOk {
+				val = nil
+				for _, r := range *lk.Referrers() {
+					if ex, ok := r.(*ssa.Extract); ok {
+						if ex.Index == 0 {
+							val = ex
+						} else {
+							okv = ex
+						}
+					}
+				}
+			}
+			if val == nil || val.Referrers() == nil {
+				return
+			}
+			for _, r := range *val.Referrers() {
+				deref := false
+				switch x := r.(type) {
+				case *ssa.FieldAddr:
+					deref = x.X == val
+				case *ssa.UnOp:
+					deref = x.Op == token.MUL && x.X == val
+				}
+				if !deref {
+					continue
+				}
+				guarded := false
+				for _, g := range flow.Guards(fn, r.Block()) {
+					cond, want := g.If.Cond, g.Branch
+					for {
+						if u, ok := cond.(*ssa.UnOp); ok && u.Op == token.NOT {
+							cond, want = u.X, !want
+							continue
+						}
+						break
+					}
+					if okv != nil && cond == okv && want {
+						guarded = true
+					}
+					if bin, ok := cond.(*ssa.BinOp); ok && (bin.X == val && ir.IsNilConst(bin.Y) || bin.Y == val && ir.IsNilConst(bin.X)) {
+						if bin.Op == token.NEQ && want || bin.Op == token.EQL && !want {
+							guarded = true
+						}
+					}
+				}
+				n++
+				construct := "entry of " + key + " dereferenced in " + fname(fn)
+				cnt[construct]++
+				if cnt[construct] > 1 {
+					construct = sprintf("%s#%d", construct, cnt[construct])
+				}
+				c.R.Check(guarded, "R-lookup-checked", construct, c.Pos(r.Pos()), "the dereference is reachable only when this lookup found the entry",
+					sprintf("%s dereferences the entry it looked up in %s without testing this lookup's result: an Unregister between an earlier existence check and this lookup leaves nil here and the request panics", fname(fn), key))
+			}
+		})
+	}
+	c.R.Min("R-lookup-checked", 3)
+}
+
+// c12DerivedCache (R-cache-invalidated): when a registry owner keeps data derived from its registry in another member
+// (a cached list, a snapshot with a validity flag or version), every mutation of the registry must, on every path,
+// also write one of the members the cache is validated by; otherwise a replaced or removed entry keeps being served.
+// The cache is discovered, not named: a function of the owner that reads a registry field, mutates none, and writes
+// some other member of the owner.
+func c12DerivedCache(c *Ctx, ri *registryInfo, accs []Access) {
+	type fo struct {
+		fn    *ssa.Function
+		owner string
+	}
+	reads, mutates := map[fo]bool{}, map[fo]bool{}
+	others := map[fo][]Access{}
+	for _, a := range accs {
+		if a.Init || a.Local || !ri.owners[a.Owner] {
+			continue
+		}
+		k := fo{a.Fn, a.Owner}
+		if ri.fields[a.Field] {
+			if a.Write {
+				mutates[k] = true
+			} else {
+				reads[k] = true
+			}
+		} else {
+			others[k] = append(others[k], a)
+		}
+	}
+	validity := map[string]map[string]bool{} // owner -> members a cache is validated by
+	cacheFn := map[string]*ssa.Function{}
+	source := map[string]map[string]bool{} // owner -> registry fields the cache is built from
+	for k, os := range others {
+		if !reads[k] || mutates[k] {
+			continue
+		}
+		wrote := false
+		for _, a := range os {
+			wrote = wrote || a.Write
+		}
+		if !wrote {
+			continue
+		}
+		if validity[k.owner] == nil {
+			validity[k.owner] = map[string]bool{}
+		}
+		for _, a := range os {
+			validity[k.owner][a.Field] = true
+		}
+		for _, a := range accs {
+			if a.Fn == k.fn && a.Owner == k.owner && ri.fields[a.Field] {
+				if source[k.owner] == nil {
+					source[k.owner] = map[string]bool{}
+				}
+				source[k.owner][a.Field] = true
+			}
+		}
+		if cacheFn[k.owner] == nil || fname(k.fn) < fname(cacheFn[k.owner]) {
+			cacheFn[k.owner] = k.fn
+		}
+	}
+	var owners []string
+	for o := range validity {
+		owners = append(owners, o)
+	}
+	sort.Strings(owners)
+	c.R.Extra["derived_caches"] = owners
+	for _, o := range owners {
+		cnt := map[string]int{}
+		for _, a := range accs {
+			if a.Init || a.Local || a.Owner != o || !source[o][a.Field] || !a.Write {
+				continue
+			}
+			ub := a.Instr.Block()
+			ok := false
+			for _, w := range accs {
+				if w.Fn != a.Fn || w.Owner != o || !w.Write || !validity[o][w.Field] {
+					continue
+				}
+				wb := w.Instr.Block()
+				if wb == ub || wb.Dominates(ub) {
+					ok = true
+					break
+				}
+				// after the mutation on every path: no exit reachable from the mutation without passing the write
+				reach := flow.BlocksReachableAvoiding(ub, map[*ssa.BasicBlock]bool{wb: true})
+				exit := false
+				for b := range reach {
+					if len(b.Succs) == 0 {
+						exit = true
+					}
+				}
+				if !exit {
+					ok = true
+					break
+				}
+			}
+			construct := a.Kind + " of " + a.Field + " in " + fname(a.Fn)
+			cnt[construct]++
+			if cnt[construct] > 1 {
+				construct = sprintf("%s#%d", construct, cnt[construct])
+			}
+			var vs []string
+			for f := range validity[o] {
+				vs = append(vs, f)
+			}
+			sort.Strings(vs)
+			c.R.Check(ok, "R-cache-invalidated", construct, c.Pos(a.Pos), "every path through the mutation also writes a member the derived cache is validated by",
+				sprintf("%s keeps data derived from its registry (built in %s, validated by %v), but this %s of %s in %s is not accompanied on every path by a write to one of those members: list keeps serving the replaced or removed entry while call/read already use the new one",
+					o, fname(cacheFn[o]), vs, a.Kind, a.Field, fname(a.Fn)))
+		}
+	}
 }
